@@ -864,6 +864,8 @@ class Adapter:
         self.cinco = cinco
         self.desc = schema_desc
         self.environ = environ
+        if has_kind(schema_desc, "filename"):
+            fs_root()  # (created here, in the parent process, so that forked replay workers share it and it is cleaned up)
 
     def start(self, init):
         return World(self.cinco, self.desc, init, self.environ)
